@@ -351,6 +351,31 @@ pub fn cmsheap(max_len: usize) -> (u64, Vec<Viol>) {
 
 const LONG_LENS: [usize; 10] = [1, 63, 64, 65, 66, 127, 128, 129, 130, 300];
 
+/// every length once with distinct items and once with runs of equal adjacent items (run lengths 1, 2, 3, 1, 4, 2, ...): a
+/// delivery path that folds adjacent duplicates must still equal the add loop
+const LONG_LENS_RUNS: [(usize, bool); 20] = [(1, false), (63, false), (64, false), (65, false), (66, false), (127, false), (128, false), (129, false), (130, false), (300, false),
+    (1, true), (63, true), (64, true), (65, true), (66, true), (127, true), (128, true), (129, true), (130, true), (300, true)];
+
+fn long_stream2(len: usize, runs: bool) -> Vec<u64> {
+    if !runs {
+        return long_stream(len);
+    }
+    let base = long_stream(len);
+    let pattern = [1usize, 2, 3, 1, 4, 2, 1, 1, 5];
+    let mut out = Vec::with_capacity(len);
+    let (mut b, mut p) = (0usize, 0usize);
+    while out.len() < len {
+        for _ in 0..pattern[p % pattern.len()] {
+            if out.len() < len {
+                out.push(base[b]);
+            }
+        }
+        b += 1;
+        p += 1;
+    }
+    out
+}
+
 fn long_stream(len: usize) -> Vec<u64> {
     (0..len as u64).map(|i| (i * 2 + 2).wrapping_mul(0x9E37_79B9_7F4A_7C15) | 1).map(|x| x & !1).collect() // even values
 }
@@ -388,8 +413,8 @@ fn long_viol(prop: &str, what: &str, len: usize, mode: usize, msg: String) -> Vi
 pub fn hll_long() -> (u64, Vec<Viol>) {
     let (mut cases, mut out) = (0u64, vec![]);
     for b in [4usize, 12] {
-        for &len in &LONG_LENS {
-            let items = long_stream(len);
+        for &(len, runs) in &LONG_LENS_RUNS {
+            let items = long_stream2(len, runs);
             let mut want: HyperLogLog<u64> = HyperLogLog::new(b);
             for x in &items {
                 want.add(x);
@@ -423,8 +448,8 @@ pub fn cms_long() -> (u64, Vec<Viol>) {
     // shapes incl. ones where (d-1) shares a factor with w: two elements can then collide in the first and the last row
     // without colliding in between (double hashing), which a "same counters?" shortcut that looks at two rows gets wrong
     for (w, d) in [(7usize, 3usize), (64, 4), (10, 3), (4, 5), (6, 3), (8, 5)] {
-        for &len in &LONG_LENS {
-            let items = long_stream(len);
+        for &(len, runs) in &LONG_LENS_RUNS {
+            let items = long_stream2(len, runs);
             let mut want: CountMinSketch<u64> = CountMinSketch::with_params(w, d);
             for x in &items {
                 want.add(x);
@@ -451,8 +476,8 @@ pub fn cms_long() -> (u64, Vec<Viol>) {
 pub fn bloom_long() -> (u64, Vec<Viol>) {
     let (mut cases, mut out) = (0u64, vec![]);
     for (m, k) in [(257usize, 3usize), (4099, 5)] {
-        for &len in &LONG_LENS {
-            let items = long_stream(len);
+        for &(len, runs) in &LONG_LENS_RUNS {
+            let items = long_stream2(len, runs);
             let mut want: BloomFilter<u64> = BloomFilter::with_params(m, k);
             for x in &items {
                 let _ = want.insert(x);
@@ -484,8 +509,8 @@ pub fn bloom_long() -> (u64, Vec<Viol>) {
 pub fn reservoir_long(prop: &str) -> (u64, Vec<Viol>) {
     let (mut cases, mut out) = (0u64, vec![]);
     for k in [1usize, 3, 70] {
-        for &len in &LONG_LENS {
-            let items = long_stream(len);
+        for &(len, runs) in &LONG_LENS_RUNS {
+            let items = long_stream2(len, runs);
             for tail in [Tail::Zero, Tail::Max] {
                 chooser::begin_with(&[], tail, 0);
                 let mut want = ReservoirSampling::new(k, ChoiceRng);
